@@ -242,6 +242,19 @@ CLAIMED["C20"] = dict(
          "Model/Scrub.v, the macro scan, extraction + driver, the capture logger, doors verif::session / verif::scrub",
     design="DESIGN.md 5 C20")
 
+CLAIMED["C09"] = dict(
+    text="Coq theorems collected from the parser models, each for EVERY input: the UDP and ICMP multiplexer stream decoders end Ok "
+         "(no Panic outcome, the fuel given by the chunk lengths suffices), IPv4/IPv6 header skipping (incl. extension chains), "
+         "ICMP/ICMPv6 deserialisation and request matching are neither Panic nor out of fuel, a SOCKS5 relayed datagram never panics the "
+         "unwrapper, the HTTP/1.1 listen loop never spins and refuses a head undecided at the limit, the TLS peek loop ends by itself, "
+         "keeps at most 16 KiB and loses nothing, and a forwarded-body write hands back at most what it was offered. Tied by the ties of "
+         "C06/C08/C11/C12/C15/C17 and by an adversarial run through every door under catch_unwind and a watchdog: the valid cases of "
+         "those properties mutated (bit flips, truncations, extreme length fields, insertions, runs of 0x00/0xff, re-segmentation) and "
+         "every string of length <= 3 over a reduced alphabet for the packet parsers, with model equality where the model is total",
+    note="partial: httparse / tls-parser / toml_edit / h2 are exercised, not modelled; memory bounds are theorems on the models' "
+         "buffers, not measurements; QUIC packet parsing is not driven; trusted as for the contributing checks",
+    design="DESIGN.md 5 C09")
+
 PENDING_REASON = "check under construction in this round (designed in DESIGN.md, not yet wired into ./check)"
 
 
